@@ -435,7 +435,9 @@ class Unit:
             if r.startswith('R-subst:'):
                 # documented literal substitution  R-subst:from=>to  (used for path renames only)
                 a, b_ = r[8:].split('=>')
-                text, n = sub_outside_comments(re.escape(a), b_.replace('\\', '\\\\'), text)
+                # runs of whitespace in the anchor match any whitespace (multi-line statements)
+                pat = r'\s+'.join(re.escape(tok) for tok in a.split())
+                text, n = sub_outside_comments(pat, b_.replace('\\', '\\\\'), text)
                 if n == 0:
                     raise LostAnchor('R-subst anchor %r not found in %s' % (a, label))
                 self.rules.hit('R-subst', n)
